@@ -113,16 +113,26 @@ def loop(code, attr_bytes, expect_bytes=None):
     attr = dict(BASE)
     attr[str(code)] = text
     mark = w.mark()
-    r = rest.call('v1.json_to_bin', '/v1/peer/10.0.0.2/json_to_bin', 'POST', creds=('admin', 'admin'),
-                  view_args={'peer_ip': '10.0.0.2'}, body={'attr': attr, 'nlri': ['10.0.0.0/8']})
-    if r.status != 200 or not isinstance(r.obj, dict) or 'bin' not in r.obj or 'raw' not in rec:
-        return False
+    if P.get('view') == 'send':
+        # the same text through the view that actually sends: the octets on the wire are judged
+        r = rest.call('v1.send_update_message', '/v1/peer/10.0.0.2/send/update', 'POST', creds=('admin', 'admin'),
+                      view_args={'peer_ip': '10.0.0.2'}, body={'attr': attr, 'nlri': ['10.0.0.0/8']})
+        wire = w.wire(mark['wire'])
+        if r.status != 200 or not isinstance(r.obj, dict) or r.obj.get('status') is not True or len(wire) != 1:
+            return False
+        raw = wire[0][2]
+        rec['raw'] = raw
+    else:
+        r = rest.call('v1.json_to_bin', '/v1/peer/10.0.0.2/json_to_bin', 'POST', creds=('admin', 'admin'),
+                      view_args={'peer_ip': '10.0.0.2'}, body={'attr': attr, 'nlri': ['10.0.0.0/8']})
+        if r.status != 200 or not isinstance(r.obj, dict) or 'bin' not in r.obj or 'raw' not in rec:
+            return False
+        if len(w.wire(mark['wire'])) != 0:
+            return False              # json_to_bin must not send anything
     raw = rec['raw']
     if not isinstance(raw, (bytes, bytearray)) and not hasattr(raw, '__ch_realize__'):
         return False              # "construct failed"
     cover('accepted')
-    if len(w.wire(mark['wire'])) != 0:
-        return False              # json_to_bin must not send anything
     n = len(raw)
     if raw[16] * 256 + raw[17] != n or raw[18] != 2:
         return False
@@ -209,6 +219,7 @@ def obligations(tier, seed):
         if k.endswith('-small'):
             prm['canonical'] = k[:2] + '0'
         out.append(ob('C17/ext/%s' % k, 'ob_ext', prm, covers=['decoded', 'accepted'], cap=200))
+        out.append(ob('C17/ext/%s/view=send' % k, 'ob_ext', dict(prm, view='send'), covers=['decoded', 'accepted'], cap=200))
     for rate in ([0, 1000] if quick else [0, 1, 1000, 16777216, 3000000000]):
         out.append(ob('C17/ext/traffic-rate/rate=%d' % rate, 'ob_ext', {'kind': 'traffic-rate', 'rate': rate},
                       covers=['decoded', 'accepted']))
@@ -222,6 +233,8 @@ def obligations(tier, seed):
         out.append(ob('C17/ext/%s+%s' % (k, more[0]), 'ob_ext', {'kind': k, 'more': more}, covers=['decoded', 'accepted'], cap=250))
     out.append(ob('C17/community/n=1', 'ob_comm', {'n': 1}, covers=['decoded', 'accepted'], cap=250))
     out.append(ob('C17/community/n=2', 'ob_comm', {'n': 2}, covers=['decoded', 'accepted'], cap=250))
+    out.append(ob('C17/community/n=1/view=send', 'ob_comm', {'n': 1, 'view': 'send'}, covers=['decoded', 'accepted'], cap=250))
+    out.append(ob('C17/largecomm/n=1/view=send', 'ob_largecomm', {'view': 'send'}, covers=['decoded', 'accepted'], cap=250))
     for name, v in sorted(WELL_KNOWN_COMMUNITIES.items()):
         out.append(ob('C17/community/well-known=%s' % name, 'ob_comm', {'n': 1, 'fixed': [v]}, covers=['decoded', 'accepted']))
     for nm in NAMES:
